@@ -27,7 +27,12 @@ use std::future::Future;
 use std::net::SocketAddr;
 use std::sync::Arc;
 use std::time::Duration;
+#[cfg(not(scylla_verif))]
 use std::time::Instant;
+// Under simulation the attempt latency handed to the load-balancing policy is measured on
+// the simulated (Tokio) clock, so that latency-aware policies behave reproducibly.
+#[cfg(scylla_verif)]
+use tokio::time::Instant;
 
 use tracing::Instrument;
 use tracing::trace;
